@@ -46,7 +46,12 @@ class SearchingRetort(BaseRetort, Provider, ABC):
         # Results of an unfinished request (closures holding unbound recursion stubs)
         # are visible to other requests via `_call_cache`, so requests must not be interleaved
         with self._provide_lock:
-            return self._create_mediator(request).provide(request)
+            try:
+                return self._create_mediator(request).provide(request)
+            except BaseException:
+                # closures cached while serving a failed request can hold recursion stubs that will never be bound
+                self._call_cache.clear()
+                raise
 
     def get_request_handlers(self) -> Sequence[tuple[type[Request], RequestChecker, RequestHandler]]:
         def retort_request_handler(mediator, request):
